@@ -229,15 +229,20 @@ fn check_tape(tape: &[u8], gates: &Gates, stats: &mut Stats, counting: bool) -> 
     // characters so dense that every block boundary of the UTF-8 form has an even chance to fall
     // inside one; a few ASCII bytes in front shift the phase
     if choice.ratio(1, 12) && gates.want("FILE_LARGER_THAN_A_BLOCK") {
-        let kib = *choice.pick(&[5usize, 9, 17, 33, 66, 70, 130, 200]);
+        // (now and then far larger: a size limit, a buffer or a counter that is measured in stored
+        // bytes treats the encodings of one text differently - the sizes straddle 256 KiB, 512 KiB,
+        // 1 MiB and 2 MiB in one encoding but not in another)
+        let kib = if choice.ratio(1, 4) { *choice.pick(&[140usize, 270, 530, 700, 1050, 1400, 2100]) } else { *choice.pick(&[5usize, 9, 17, 33, 66, 70, 130, 200]) };
         let mut filler = "x".repeat(choice.below(4));
         filler.insert_str(0, "(* ");
         filler.push_str(" *)\n");
         let c = *choice.pick(REPERTOIRE_1252);
-        let line = format!("(* {} *)\n", c.to_string().repeat(30 + choice.below(9)));
-        while filler.len() < kib * 1024 {
-            filler.push_str(&line);
-        }
+        // dense two-byte characters, or plain ASCII (one byte in UTF-8 and Windows-1252, two in UTF-16)
+        let line = if choice.flag() { format!("(* {} *)\n", c.to_string().repeat(30 + choice.below(9))) } else { format!("(* {} {} *)\n", "filler text 0123456789".repeat(1 + choice.below(3)), c) };
+        // (the size is counted in characters)
+        let per_line = line.chars().count();
+        let lines = (kib * 1024) / per_line + 1;
+        filler.push_str(&line.repeat(lines));
         if crlf {
             filler = filler.replace('\n', "\r\n");
         }
